@@ -496,7 +496,7 @@ impl<'a> Sim<'a> {
             Form::VecLabel => {
                 let mut ls = Vec::with_capacity(utt.lines.len());
                 for idx in &utt.lines {
-                    ls.push(env.label(*idx % env.corpus.len() as u32).map_err(HarnessError)?);
+                    ls.push(env.label(*idx).map_err(HarnessError)?);
                 }
                 f_other(eng, LabelInput::Labels(ls))
             }
@@ -574,8 +574,11 @@ impl<'a> Sim<'a> {
     fn check_model(&mut self, e: usize, oracle: &'static str) -> Result<(), Stop> {
         let slot = self.engines[e].as_ref().unwrap();
         self.stats.comparisons += 1;
-        if let Some((field, text)) = slot.model.compare(&slot.eng.condition, true) {
-            return Err(self.viol(oracle, format!("getter-mismatch:{}", field), text));
+        match guarded(|| slot.model.compare(&slot.eng.condition, true)) {
+            Ok(Some((field, text))) => return Err(self.viol(oracle, format!("getter-mismatch:{}", field), text)),
+            Ok(None) => {}
+            // a getter that panics for an in-range stream index does not "return exactly the stored value"
+            Err(p) => return Err(self.viol(oracle, "getter-panicked", format!("a getter panicked: {} @{}:{}", p.msg, p.file, p.line))),
         }
         Ok(())
     }
@@ -662,8 +665,10 @@ impl<'a> Sim<'a> {
             if self.engines[e].is_some() {
                 let slot = self.engines[e].as_ref().unwrap();
                 self.stats.comparisons += 1;
-                if let Some((field, text)) = slot.model.compare(&slot.eng.condition, true) {
-                    return Err(self.viol(oracle, format!("getter-mismatch:{}", field), format!("engine slot e{}: {}", e, text)));
+                match guarded(|| slot.model.compare(&slot.eng.condition, true)) {
+                    Ok(Some((field, text))) => return Err(self.viol(oracle, format!("getter-mismatch:{}", field), format!("engine slot e{}: {}", e, text))),
+                    Ok(None) => {}
+                    Err(p) => return Err(self.viol(oracle, "getter-panicked", format!("engine slot e{}: a getter panicked: {} @{}:{}", e, p.msg, p.file, p.line))),
                 }
             }
         }
@@ -754,6 +759,49 @@ impl<'a> Sim<'a> {
                 }
                 if self.prop == Prop::C03 && a != b {
                     return Err(self.viol("C03.clone", "clone-from-settings-differ", "after dst.clone_from(&src) the observable settings of dst differ from src"));
+                }
+                Ok(())
+            }
+            Op::Rebuild { e, how } => {
+                let Some(slot) = self.engines.get_mut(*e).and_then(|x| x.as_mut()) else {
+                    self.stats.noop_ops += 1;
+                    return Ok(());
+                };
+                if slot.eng.is_shared() {
+                    self.stats.noop_ops += 1;
+                    return Ok(());
+                }
+                self.stats.api_calls += 1;
+                let how = *how % 3;
+                let r = {
+                    let eng = slot.eng.owned_mut().unwrap();
+                    guarded(|| match how {
+                        0 => {
+                            let rebuilt = Engine::new(eng.voices.clone(), eng.condition.clone());
+                            *eng = rebuilt;
+                        }
+                        1 => {
+                            let rebuilt = Engine { condition: eng.condition.clone(), voices: eng.voices.clone() };
+                            *eng = rebuilt;
+                        }
+                        _ => {
+                            let c = eng.condition.clone();
+                            eng.condition = c;
+                        }
+                    })
+                };
+                self.stats.probe(&format!("engine_rebuilt_from_parts:{}", how));
+                self.note(0x5200 + (*e * 4) as u64 + how as u64);
+                if let Err(p) = r {
+                    return Err(self.viol(
+                        match self.prop { Prop::C19 => "C19.weights-model", Prop::C20 => "C20.setter-model", _ => "C03.settings-model" },
+                        "rebuild-panicked",
+                        format!("re-assembling an engine from its own voices and condition panicked: {}", p.msg),
+                    ));
+                }
+                if self.prop != Prop::C02 {
+                    // an engine assembled from a customised condition reports exactly that condition
+                    self.check_model(*e, match self.prop { Prop::C19 => "C19.weights-model", Prop::C20 => "C20.setter-model", _ => "C03.settings-model" })?;
                 }
                 Ok(())
             }
@@ -869,6 +917,11 @@ impl<'a> Sim<'a> {
                     return Ok(()); // out-of-range stream index is a documented precondition
                 }
                 self.stats.api_calls += 1;
+                if let Setter::Msd(i, _) | Setter::GvWeight(i, _) = s {
+                    if *i >= 3 {
+                        self.stats.probe("per_stream_setter_on_stream_index_3_or_later");
+                    }
+                }
                 let apply = |c: &mut Condition| match *s {
                     Setter::SamplingFrequency(i) => c.set_sampling_frequency(i),
                     Setter::Fperiod(i) => c.set_fperiod(i),
@@ -973,10 +1026,17 @@ impl<'a> Sim<'a> {
                     if sum == 1.0 { "wrong_length_good_sum" } else { "wrong_length" }
                 } else if w.iter().any(|x| x.is_nan()) {
                     "nan"
+                } else if w.iter().any(|x| x.is_infinite()) {
+                    "inf"
                 } else {
                     "bad_sum"
                 };
                 self.stats.probe(&format!("setw:{}", kind));
+                if let Which::Par(i) | Which::Gv(i) = which {
+                    if *i >= 3 {
+                        self.stats.probe("weights_on_stream_index_3_or_later");
+                    }
+                }
                 self.nontrivial = true;
                 self.note(crate::rng::hash_bytes(top.to_text().as_bytes()));
                 if self.prop == Prop::C19 {
@@ -1434,6 +1494,11 @@ impl<'a> Sim<'a> {
             self.stats.probe("finish_fresh");
         } else if cursor < frames {
             self.stats.probe("finish_after_partial");
+            if cursor >= 8192 {
+                self.stats.probe("finish_after_8192_or_more_steps");
+            } else if cursor >= 4096 {
+                self.stats.probe("finish_after_4096_or_more_steps");
+            }
         } else {
             self.stats.probe("finish_after_exhaustion");
         }
